@@ -807,6 +807,35 @@ class Engine:
             return self.funcs[c]
         return None
 
+    def find_sibling_fn(self, callee):
+        """a function of another workspace crate (libxcp -> libfs, xcp -> libxcp/libfs) that no lemma summarises:
+        its MIR is loaded on demand and executed like a crate-local function"""
+        loader = getattr(self, "sibling_loader", None)
+        if loader is None or "{closure" in callee or callee.startswith("<"):
+            return None
+        c = re.sub(r"::<[^()]*>$", "", callee)
+        segs = c.split("::")
+        if segs[0] in ("std", "core", "alloc"):
+            return None
+        if not hasattr(self, "_sibling_funcs"):
+            self._sibling_funcs = loader()
+        hits = []
+        for funcs in self._sibling_funcs:
+            for name, fn in funcs.items():
+                if not hasattr(fn, "blocks") or not fn.blocks:
+                    continue
+                ns = name.split("::")
+                if ns[-1] == segs[-1] and (len(segs) == 1 or ns[-len(segs) + 1:] == segs[1:] or ns[-len(segs):] == segs):
+                    hits.append((funcs, fn))
+        uniq = {id(fn): (funcs, fn) for funcs, fn in hits}
+        if len(uniq) != 1:
+            return None
+        funcs, fn = list(uniq.values())[0]
+        # the callee's own callees, constants and promoteds resolve in its crate: merge what does not collide
+        for k, v in funcs.items():
+            self.funcs.setdefault(k, v)
+        return fn
+
     def push_call(self, st, fn, args, dest, ret_bb, on_return=None):
         if len(st.frames) >= self.depth_bound:
             raise EngineAbort("inline depth bound exceeded at %s" % fn.name)
@@ -1041,6 +1070,8 @@ class Engine:
         if h is None:
             fn = self.find_fn(callee)
             # functions of the crate under analysis are executed (inlined) unless a lemma summarises them
+            if fn is None:
+                fn = self.find_sibling_fn(callee)
             if fn is not None and fn.blocks:
                 self.push_call(st, fn, args, (dcell, dpath), ret_bb)
                 return None
